@@ -6,11 +6,14 @@ import (
 	"fmt"
 	"os"
 	"path/filepath"
+	"runtime"
 	"sort"
 	"strconv"
 	"strings"
 	"sync"
 	"time"
+
+	"github.com/sirupsen/logrus"
 )
 
 // Finding is one entry of /verif/known_findings.json.
@@ -111,6 +114,13 @@ func NewRun(id, level string) *Run {
 		os.Exit(2)
 	}
 	r.Scratch = sc
+	// The code under test ends the node through FATAL log entries (logrus: exit handlers, then os.Exit(1)). In a driver
+	// that runs it in-process that would end the run without a verdict: say what happened, and where, on the way out.
+	logrus.RegisterExitHandler(func() {
+		buf := make([]byte, 16<<10)
+		buf = buf[:runtime.Stack(buf, false)]
+		fmt.Printf("FATAL-LOG-EXIT property=%s the code under test ended the process through a FATAL log entry\n%s\n", id, buf)
+	})
 	return r
 }
 
